@@ -133,7 +133,7 @@ func Setup() {
 func genOpts() hx.GenOpts {
 	o := hx.GenOpts{MaxEvents: 5, MaxDepth: 2, Attrs: 1, NS: 0, Other: false, SymNames: false}
 	if nd.Tier() > 0 {
-		o.MaxEvents, o.MaxDepth, o.Other = 7, 3, true
+		o.MaxEvents, o.MaxDepth, o.Other = 6, 3, true
 	}
 	return o
 }
